@@ -381,8 +381,12 @@ func pkgClause(dir string) (string, error) {
 
 func (c *Ctx) stdHintsTable() (map[string]string, string, token.Pos, bool) {
 	reg := c.registerFn()
-	// the map[string]string global read by the registration function
-	for _, b := range reg.Blocks {
+	// the map[string]string global read by the registration function (or a helper it calls)
+	var blocks []*ssa.BasicBlock
+	for _, f := range append([]*ssa.Function{reg}, c.calleesWithin(reg, 2)...) {
+		blocks = append(blocks, f.Blocks...)
+	}
+	for _, b := range blocks {
 		for _, in := range b.Instrs {
 			for _, op := range in.Operands(nil) {
 				gl, ok := (*op).(*ssa.Global)
